@@ -128,7 +128,7 @@ def app_cases(tier, rng):
 def nontrivial(case, out):
     return any(t not in ('0/1', '1/1') for t in out.replace('(', ' ').replace(')', ' ').split() if '/' in t)
 
-STAGES = [dict(name='mod', mode='unit', coq='Check.C18c', cases=cases, nontrivial=nontrivial, shard=150,
+STAGES = [dict(name='mod', mode='unit', coq='Check.C18c', profile=('Proofs.JudgeBoolP', 'JudgeBoolP.c18_weak_caseb', "C18_judgement_sound / C18_judgement_transfer_exact (JudgeBoolP.C18_judgement_sound_weak_b: any output Qeq to the model's is accepted)"), cases=cases, nontrivial=nontrivial, shard=150,
                exhaustive={'thorough': False, 'quick': False},
                rule='InputModifier::apply called directly on every value of the grid {-2,-1,-1/2,-1/4,0,1/4,1/2,1,2}^axes (3D on a 5-point grid in quick) for all 8 Negate masks, '
                     '5 Scale triples, 5 swizzles, 4 dead-zone threshold pairs x {axial, radial}, 4 exponent triples, DeltaScale x 4 deltas; fine 1/16 grid for monotonicity; '
